@@ -210,8 +210,13 @@ func Last[T any](iter Iterator[T], n int) []T {
 		if !ok {
 			break
 		}
-		buf[i%n] = item
+		if n > 0 {
+			buf[i%n] = item
+		}
 		i++
+	}
+	if n == 0 {
+		return buf
 	}
 	if i < n {
 		return buf[:i]
